@@ -987,6 +987,8 @@ class CoseContext(AbstractContext):
                     # detach payload
                     msg_dec = cbor2.loads(msg_enc)
                     tgt_blk.setfieldval('btsd', msg_dec[2])
+                    # the content is ciphertext now, no decoded layer may be re-encoded over it
+                    tgt_blk.remove_payload()
                     msg_dec[2] = None
 
                 elif keyops.WrapOp in sop.priv_key.key_ops:
@@ -1021,6 +1023,8 @@ class CoseContext(AbstractContext):
                     # detach payload
                     msg_dec = cbor2.loads(msg_enc)
                     tgt_blk.setfieldval('btsd', msg_dec[2])
+                    # the content is ciphertext now, no decoded layer may be re-encoded over it
+                    tgt_blk.remove_payload()
                     msg_dec[2] = None
 
                 else:
